@@ -57,6 +57,13 @@ def main():
             if c is None:
                 return [("reply", dnslib.build_reply(q, rcode=3), 0)]
             up = bytes.fromhex(c["upstream_hex"])
+            if c.get("repeat_upstream_silent"):
+                # answers the first ask, then falls silent: by the time of the repeat the cached entry has run out (one record
+                # lived for a second), so nothing at all backs an answer any more
+                now = time.monotonic()
+                t1 = c.setdefault("_t_first_reply", now)
+                if now - t1 > 1.2:
+                    return [("drop",)]
             if proto == "tcp" and c.get("upstream_tcp") == "close":
                 return [("close",)]
             if proto == "udp" and len(up) > 4000:
@@ -86,11 +93,13 @@ def main():
             v6 = c["case"] % 4 == 3
             target = ("::1", 53) if v6 else ("127.0.0.53", 53)
             fam = socket.AF_INET6 if v6 else socket.AF_INET
+            # (a repeat towards an upstream that has fallen silent is answered only when the server gives up on it)
+            wait = 70.0 if repeat and c.get("repeat_upstream_silent") else 20.0
             if transport == "tcp":
-                r, err = dnslib.tcp_query(target, q, timeout=20.0, family=fam)
+                r, err = dnslib.tcp_query(target, q, timeout=wait, family=fam)
             else:
-                rs = dnslib.udp_query(target, q, timeout=20.0, family=fam)
-                r, err = (rs[0][0], None) if rs else (None, "no datagram within 20 s")
+                rs = dnslib.udp_query(target, q, timeout=wait, family=fam)
+                r, err = (rs[0][0], None) if rs else (None, "no datagram within %d s" % wait)
             with elock:
                 events.append({"case": c["case"], "transport": transport, "response_hex": r.hex() if r is not None else None,
                                "error": err, "repeat": repeat, "elapsed_s": (time.monotonic() - t_first) if t_first else 0.0})
